@@ -591,9 +591,65 @@ def monitors(ctx, case, obs):
 # ---------------------------------------------------------------- the enumeration
 
 
+# A real case that ends with a signal exit which neither the scenario sent (SIGKILL/SIGTERM/SIGINT) nor the code under test raises is a
+# crash of the *tracing interpreter* (seen: SIGSEGV at interpreter exit under sys.settrace + the notification thread), not behaviour of
+# the code under test: it never becomes a verdict and is never mapped to an expected status either.  The case is re-run (3 attempts);
+# an attempt that ends normally is used; a case whose attempts all crash is excluded, counted (`interpreter-crash`) and noted; a run with
+# more than 5 % excluded cases ends as a harness error (exit 2).
+CRASH_RC = {-int(signal.SIGSEGV): "SIGSEGV", -int(signal.SIGABRT): "SIGABRT", -int(signal.SIGBUS): "SIGBUS", -int(signal.SIGILL): "SIGILL"}
+CRASH_ATTEMPTS = 3
+CRASH = {"cases": 0, "excluded": [], "retried": 0}
+
+
+def _crashed(rcs):
+    return [CRASH_RC[r] for r in rcs if isinstance(r, int) and r in CRASH_RC]
+
+
+def _crash_desc(case):
+    return json.dumps({k: v for k, v in case.items() if k in CASE_KEYS + ("l1", "point", "id", "n") and v is not None}, sort_keys=True)
+
+
+def run_case_retry(tpl, case):
+    o = None
+    for attempt in range(CRASH_ATTEMPTS):
+        o = run_case(tpl, case)
+        sigs = _crashed([o["rc"], o["relaunch"]["rc"]])
+        if not sigs:
+            o["crash_attempts"] = attempt
+            return o
+    o["crash_attempts"] = CRASH_ATTEMPTS
+    o["interpreter_crash"] = sigs
+    return o
+
+
+def crash_account(ctx, case, crash_attempts, excluded_sigs=None, family="crash-point"):
+    """book-keeping of one real case for the interpreter-crash rule; returns True when the case is excluded"""
+    CRASH["cases"] += 1
+    if crash_attempts and not excluded_sigs:
+        CRASH["retried"] += 1
+        ctx.count("interpreter-crash-retried", f"{family} {_crash_desc(case)}: {crash_attempts} crashed attempt(s), then a normal end (used)")
+    if excluded_sigs:
+        d = f"{family} {_crash_desc(case)}: {CRASH_ATTEMPTS} attempts all ended by {'/'.join(sorted(set(excluded_sigs)))}"
+        CRASH["excluded"].append(d)
+        ctx.count("interpreter-crash", d)
+        ctx.notes.append(f"excluded from the comparison (crash of the tracing interpreter, not behaviour of the code under test): {d}")
+        return True
+    return False
+
+
+def crash_verdict(ctx):
+    """more than 5 % of the real cases excluded: the run says nothing (harness error, exit 2)"""
+    n, x = CRASH["cases"], len(CRASH["excluded"])
+    ctx.extra_cov["interpreter_crash_excluded"] = x
+    ctx.extra_cov["interpreter_crash_retried_ok"] = CRASH["retried"]
+    if n and x * 20 > n:
+        raise RuntimeError(f"{x} of {n} real cases excluded because the tracing interpreter crashed in all {CRASH_ATTEMPTS} attempts (> 5 %): "
+                           f"not a verdict; first: {CRASH['excluded'][0]}")
+
+
 def run_all(ctx, tpl, cases):
     with ThreadPoolExecutor(WORKERS) as ex:
-        return list(ex.map(lambda c: run_case(tpl, c), cases))
+        return list(ex.map(lambda c: run_case_retry(tpl, c), cases))
 
 
 def baseline(ctx, tpl):
@@ -602,6 +658,8 @@ def baseline(ctx, tpl):
     seq = {"scenario": list(SCENARIOS[0]), "bodykill": SEQ_POINT, "sig": "term", "k": 0}  # lines of the handler path
     obs = run_all(ctx, tpl, cases + [seq])
     for c, o in zip(cases + [seq], obs):
+        if o.get("interpreter_crash"):
+            raise RuntimeError(f"baseline {c}: the tracing interpreter crashed in all {CRASH_ATTEMPTS} attempts ({o['interpreter_crash']})")
         if o["rc"] == "timeout" or o["nlines"] == 0:
             raise RuntimeError(f"baseline {c} did not run: {o['rc']} {o['stderr']}")
     MF[0] = probe_marker_first(obs[3])
@@ -660,6 +718,9 @@ def plan_opcodes(ctx, tpl, bobs, thorough):
     obs = run_all(ctx, tpl, count)
     cases = []
     for w, o in zip(wins, obs):
+        if o.get("interpreter_crash"):
+            ctx.count("interpreter-crash", f"bytecode-window counting run {_crash_desc(w)}")
+            continue
         n = o["nops"]
         ctx.count("opcode_window", f"{'/'.join(w['scenario'])}{':seq' if 'k2' in w else ''} from line event {w.get('k2') or w['k']}: {n} bytecodes")
         js = list(range(1, n + 1))
@@ -695,6 +756,8 @@ def evaluate(ctx, tpl, cases, unreg, with_model=True):
     obs = run_all(ctx, tpl, cases)
     lines, idx = [], []
     for i, (c, o) in enumerate(zip(cases, obs)):
+        if crash_account(ctx, c, o.get("crash_attempts", 0), o.get("interpreter_crash")):
+            continue
         if o["rc"] == "timeout" or o["relaunch"]["rc"] == "timeout":
             raise RuntimeError(f"case {c} timed out: {o['stderr']}")
         if c["sig"] != "none" and not c.get("bodykill") and o["kill"] is None:
@@ -832,6 +895,7 @@ def correspond(ctx):
     overlapping_launches(ctx)
     three_launches(ctx)
     scheduler_launches(ctx)
+    crash_verdict(ctx)
 
 
 def source_order(ctx, bcases, bobs):
@@ -1006,10 +1070,23 @@ def three_launches(ctx, cases=None):
     if cases is None:
         points = BODY_POINTS if ctx.tier == "thorough" else [BODY_POINTS[1]]
         cases = [{"l1": m, "point": p} for p in points for m in THREE_L1]
+    def attempts(c):
+        o = None
+        for a in range(CRASH_ATTEMPTS):
+            o = run_three(tpl, c)
+            sigs = _crashed([o.get(f"rc{i}") for i in (1, 2, 3, 4)])
+            if not sigs:
+                o["crash_attempts"] = a
+                return o
+        o["crash_attempts"], o["interpreter_crash"] = CRASH_ATTEMPTS, sigs
+        return o
+
     with ThreadPoolExecutor(min(len(cases), 8)) as ex:
-        outs = list(ex.map(lambda c: run_three(tpl, c), cases))
+        outs = list(ex.map(attempts, cases))
     errs = 0
     for case, o in zip(cases, outs):
+        if crash_account(ctx, case, o.get("crash_attempts", 0), o.get("interpreter_crash"), family="three-launches"):
+            continue
         if o["error"]:
             errs += 1
             ctx.count("three_launch_errors", o["error"][:60])
@@ -1048,7 +1125,18 @@ def overlapping_launches(ctx):
         cases.append({"id": f"c10race{i}", "n": k, "x": 100 + i, "hold": rng.choice([0.3, 0.5]), "fail_first": False,
                       "offsets": [0.0] + [round(rng.choice([0.05, 0.1, 0.2]), 3) for _ in range(k - 1)]})
     outs = c05.run_worker_cases(ctx, "race", cases, parallel=ctx.scale(6, 12))
+    tries = {c["id"]: 0 for c in cases}
+    for _ in range(CRASH_ATTEMPTS - 1):   # same rule: a launch that ended by SIGSEGV/SIGABRT/SIGBUS/SIGILL -> the case is run again
+        again = [i for i, o in enumerate(outs) if _crashed(o.get("rcs") or [])]
+        if not again:
+            break
+        for i, o2 in zip(again, c05.run_worker_cases(ctx, "race", [cases[i] for i in again], parallel=ctx.scale(6, 12))):
+            tries[cases[i]["id"]] += 1
+            outs[i] = o2
     for case, o in zip(cases, outs):
+        sigs = _crashed(o.get("rcs") or [])
+        if crash_account(ctx, case, tries[case["id"]], sigs, family="overlapping-launches"):
+            continue
         if o.get("error"):
             ctx.count("overlap_errors", o["error"][:60])
             continue
